@@ -181,13 +181,13 @@ PARTS = MACROS + [
     Item('html5ever/src/util/str.rs', 'fn', 'lower_ascii_letter', mode='assume'),
     Item(M, 'fn', 'option_push'),
     tk('feed'), tk('process_token'), tk('process_token_and_continue'),
-    tk('get_preprocessed_char'), tk('get_char'), tk('pop_except_from'), tk('eat'), tk('run', attrs='#[verifier::exec_allows_no_decreases_clause]'),
+    tk('get_preprocessed_char'), tk('get_char'), tk('pop_except_from'), tk('eat'), tk('run'),
     tk('bad_char_error'), tk('bad_eof_error'), tk('emit_char'), tk('emit_chars'), tk('emit_current_tag'),
     tk('emit_temp_buf'), tk('clear_temp_buf'), tk('emit_current_comment'), tk('discard_tag'), tk('create_tag'),
     tk('have_appropriate_end_tag'), tk('create_attribute'), tk('finish_attribute'), tk('emit_current_doctype'),
     tk('doctype_id', mode='assume'), tk('clear_doctype_id'), tk('start_consuming_character_reference'),
     tk('emit_eof'), tk('peek'), tk('discard_char'), tk('emit_error'),
-    tk('step', split=int(__import__('os').environ.get('VERIF_STEP_PARTS', '14'))), tk('step_char_ref_tokenizer', mode='assume'), tk('process_char_ref'), tk('end', mode='assume'), tk('eof_step'),
+    tk('step', split=int(__import__('os').environ.get('VERIF_STEP_PARTS', '14')), attrs='#[verifier::rlimit(80)]'), tk('step_char_ref_tokenizer', mode='assume'), tk('process_char_ref'), tk('end', mode='assume'), tk('eof_step'),
     tk('dump_profile', mode='assume'),
     tk('is_supported_simd_feature_detected', mode='assume'), tk('data_state_simd_fast_path', mode='assume'),
     tk('data_state_sse2_fast_path', mode='assume'),
